@@ -740,6 +740,11 @@ func ruleOptScope(c *Ctx) {
 					}
 				}
 				walk(iff.Cond, 0)
+				// the receiver is the nil container that stands for a null document: nothing is in it
+				if x, _, isNil := nilTestOfCond(iff.Cond); isNil && len(impl.Params) > 0 && x == ssa.Value(impl.Params[0]) {
+					n++
+					bad = fmt.Sprintf("the error return at %s is decided directly by the test for the nil container (%s) and not by the option: in a document that is null no location exists, so with AllowMissingPathOnRemove set the remove is to be skipped like any other remove of an absent target", b.posOf(r), b.posOf(iff))
+				}
 				if involvesLen {
 					n++
 					bad = fmt.Sprintf("the error return at %s is decided directly by a length comparison (%s) and not by the option: with AllowMissingPathOnRemove set, a remove of an index that does not exist still aborts the patch", b.posOf(r), b.posOf(iff))
